@@ -123,6 +123,15 @@ def render(spec):
             w.append("    def _setup(self):\n        LOG.append(('ctor_enter', 'Root'))\n        self.v = 1\n        LOG.append(('ctor_exit', 'Root'))\n"
                      "    __init__ = _setup\n"
                      "    def _assign(self, name, value):\n        object.__setattr__(self, name, value)\n    __setattr__ = _assign\n")
+        elif style == "factory_new":
+            # the base class has no constructor of its own; its __new__ is a factory which gives an instance of the
+            # sub-class (which HAS a constructor) when the base class is called (the pathlib.Path pattern)
+            w.append("    v = 1\n    def __new__(cls, *a, **k):\n        LOG.append(('new_enter',))\n"
+                     "        obj = super().__new__(Child if cls is Root else cls)\n        LOG.append(('new_exit',))\n        return obj\n")
+        elif style == "new_chain":
+            # no constructor; the __new__ of the base and the one of the child chain to each other
+            w.append("    v = 1\n    def __new__(cls, *a, **k):\n        LOG.append(('new_enter',))\n"
+                     "        obj = super().__new__(cls)\n        LOG.append(('new_exit',))\n        return obj\n")
         elif style == "user_new":
             w.append("    def __new__(cls, *a, **k):\n        LOG.append(('new_enter',))\n        obj = super().__new__(cls)\n"
                      "        obj.v = 0\n        LOG.append(('new_exit',))\n        return obj\n")
@@ -144,6 +153,10 @@ def render(spec):
             w.append("    __slots__ = ('z',)\n")
         any_body = False
         ctor = ch["ctor"]
+        if ch.get("own_new"):
+            any_body = True
+            w.append("    def __new__(cls, *a, **k):\n        LOG.append(('new_enter',))\n"
+                     "        obj = super().__new__(cls)\n        LOG.append(('new_exit',))\n        return obj\n")
         if ctor != "none":
             any_body = True
             sup = "        super().__init__()\n"
@@ -248,6 +261,18 @@ def specs(tier):
                         if ctor in ("none", "first") and not overrides and style in ("plain", "no_init"):
                             out.append({"base": "DBC", "style": style, "invs": invs,
                                         "child": {"invs": cinvs, "ctor": ctor, "overrides": overrides, "adds": adds, "own_setattr": True}})
+    for invs in ([["C"], ["C", "S"]] if tier == "quick" else inv_opts_q):
+        for cinvs in (child_invs_q if tier == "quick" else child_invs_t):
+            for ctor in ("first", "never"):
+                for via_root in (True, False):
+                    out.append({"base": "DBC", "style": "factory_new", "invs": invs,
+                                "child": {"invs": cinvs, "ctor": ctor, "overrides": False, "adds": False, "via_root": via_root}})
+    for invs in ([["C"], ["C", "S"]] if tier == "quick" else inv_opts_q):
+        for cinvs in (child_invs_q if tier == "quick" else child_invs_t):
+            for ctor in ("none", "first"):
+                for own_new in (True, False):
+                    out.append({"base": "DBC", "style": "new_chain", "invs": invs,
+                                "child": {"invs": cinvs, "ctor": ctor, "overrides": False, "adds": False, "own_new": own_new}})
     return out
 
 
@@ -255,7 +280,7 @@ def feats(spec, op=None, seq=None):
     ch = spec["child"]
     return {"base": spec["base"], "style": spec["style"], "invs": "".join(spec["invs"]),
             "child": None if not ch else "{}|{}|{}{}{}".format("".join(ch["invs"]), ch["ctor"], "o" if ch["overrides"] else "-", "a" if ch["adds"] else "-",
-                                                              ("x" if ch.get("extends_prop") else "") + ("s" if ch.get("own_setattr") else "") + ("d" if ch.get("dc_slots") else "")),
+                                                              ("x" if ch.get("extends_prop") else "") + ("s" if ch.get("own_setattr") else "") + ("d" if ch.get("dc_slots") else "") + ("r" if ch.get("via_root") else "") + ("n" if ch.get("own_new") else "")),
             "child_invs": None if not ch else "".join(ch["invs"]), "ctor": None if not ch else ch["ctor"],
             "op": op, "first_op": seq[0] if seq else None,
             "has_setattr_inv": any(c in "SA" for c in spec["invs"] + (ch["invs"] if ch else [])),
@@ -398,6 +423,8 @@ def check_spec(spec, acc, depth):
         return
     try:
         K = ns["Child"] if spec["child"] else ns["Root"]
+        if spec["style"] == "factory_new" and spec["child"].get("via_root"):
+            K = ns["Root"]   # calling the base class gives an instance of the child
 
         def construct(falsy_k):
             ns["FALSY"]["k"] = -1 if falsy_k is None else falsy_k
@@ -438,7 +465,7 @@ def check_spec(spec, acc, depth):
             if bad:
                 acc.violation(core.Violation(PROP, bad[0], feats(spec, "construct"), bad[1] + " log={}".format(log),
                                              spec={"spec": spec, "seq": [], "falsy": [fk]}, script=src))
-        if spec["child"]:
+        if spec["child"] and spec["style"] != "factory_new":
             # Base and child share the wrappers of the members the child does not override. Use them on an instance of the
             # base class first, then judge the child histories below; afterwards judge the base instance with the base's lists.
             def warmup_and_base():
@@ -502,7 +529,7 @@ def check_spec(spec, acc, depth):
                             "history {} falsy={} step {}: {}\n log={}".format(seq, falsy, i, bad[1], log),
                             spec={"spec": spec, "seq": list(seq), "falsy": list(falsy)}, script=src))
                         break
-        if spec["child"]:
+        if spec["child"] and spec["style"] != "factory_new":
             judge_root("after_child_instances")
         acc.sample({"spec": spec, "ops": ops}, cap=2)
     finally:
